@@ -356,13 +356,16 @@ static void wrapack(int h, int hdr, int k)
     /* nothing of the peer may be in flight: a frame delivered earlier and processed only now would move the window unseen */
     for (int i = 0; i < 3 && (c->recvBufPos != 0 || sock_of_hid[h]->in_pos < sock_of_hid[h]->in_len); i++) { op_tick(1); c = conn_of_hid(h); if (!c) return; }
     if (c->recvBufPos != 0 || sock_of_hid[h]->in_pos < sock_of_hid[h]->in_len || c->state != M_CON_STATE_STARTED || c->oldestSentASDU != -1 || !c->isRunning) return;
-    int before = prng_range(1, k > 1 ? k - 1 : 1);                  /* entries before the wrap */
+    int before = prng_below(2) ? 1 : prng_range(1, k > 1 ? k - 1 : 1);   /* entries before the wrap (often exactly one: N(S) = 32767) */
     int lo = 32768 - before;
     op_preset(h, lo, c->receiveCount);
     for (int i = 0; i < k; i++) { int n = rnd_asdu(a, hdr, 30); op_enq(a, n); op_tick(1); }
-    /* first acknowledge exactly up to the wrap, so that the oldest outstanding APDU is the one with N(S) = 0, and repeat
-     * that acknowledgement (it acknowledges nothing new and is valid) */
-    if (prng_below(3) && ((0 - lo) & 32767) <= ((next_ns[h] - lo) & 32767)) { if ((lo = ack_probe(h, 0, lo)) < 0) return; if ((lo = ack_probe(h, 0, lo)) < 0) return; }
+    /* walk the acknowledgement over the wrap, repeating every value once (a repeated acknowledgement acknowledges nothing
+     * new and is valid): nothing acknowledged yet; oldest outstanding N(S) = 32767; oldest outstanding N(S) = 0 */
+    { static const int stops[3] = { -1, 32767, 0 };
+      for (int q = 0; q < 3; q++) { int r = stops[q] < 0 ? lo : stops[q];
+          if (((r - lo) & 32767) > ((next_ns[h] - lo) & 32767)) continue;             /* not inside the window as the peer sees it */
+          if ((lo = ack_probe(h, r, lo)) < 0) return; if ((lo = ack_probe(h, r, lo)) < 0) return; } }
     for (int round = 0; round < 4; round++) {
         int out = (next_ns[h] - lo) & 32767;                         /* outstanding, as the peer sees it */
         int kind = prng_below(8), r;
@@ -438,6 +441,9 @@ static void episode(bool thorough)
                 if (!why && idx != have) why = "the walk from the first to the last entry does not visit entryCounter entries"; }
             if (why && !retain_fail++) snprintf(retain_info, sizeof retain_info, "at ops-file offset %ld: queue created for %d entries, %d events of %d octets enqueued, %d entries held: %s", (long) ftell(ops), lowq, e + 1, len, have, why);
         } }
+    /* scripted (C04): one client, STARTDT, then the acknowledgement walk over the 32767 -> 0 wrap */
+    if (prng_below(4) == 0) { uint8_t f[8]; char peer[80]; sprintf(peer, "%s:%d", IPS[0], 40000 + nh); hs[nh++] = op_conn(peer); op_tick(1);
+        op_rx(hs[nh - 1], f, frame_u(f, 0x07)); op_tick(1); wrapack(hs[nh - 1], hdr, k); }
     /* scripted (C08): a started connection in a slot ABOVE the number of open connections: A, B, C connect from one address,
      * C is started, A and B close, D takes slot 0 and sends STARTDT act - C must be deactivated */
     if (prng_below(5) == 0) { uint8_t f[8]; char peer[80]; const char* ip = IPS[prng_below(6)];
